@@ -217,7 +217,7 @@ def oracle(ctx, obs):
 
 def run(ctx):
     binp = build_harness(ctx)
-    msgs, spans = regen(ctx, ["config_tables", "config_sites"])
+    msgs, spans = regen(ctx, ["config_tables", "config_sites", "config_steps", "spectrum_steps"])
     for m in msgs:
         ctx.proof_failures.append(("Gen/Config*.v", "translator", m))
     proved = (not msgs) and prove(ctx, "C20", extra_targets=["Model/ConfigCheck.vo"])
